@@ -12,6 +12,10 @@ import (
 	"github.com/cespare/xxhash/v2"
 )
 
+// walkStrictE: Walk adapters also cross-check ExpireAt() against the entry's E field. Engines that walk while other
+// goroutines run ExpireAll (which rewrites E in place: known finding F9a) switch it off.
+var walkStrictE = true
+
 // Value tokens: ints >= 1; 0 stands for nil (interface backends) / the zero value (generic backend).
 
 type EntryObs struct {
@@ -78,7 +82,7 @@ func (b shardedB) Walk() []EntryObs {
 	_, err := b.c.Walk(func(e cache.Entry) error {
 		te := e.(*cache.TraitEntry)
 		res = append(res, EntryObs{Key: string(te.K), V: tokOf(te.V), E: te.E, C: te.C})
-		if string(e.Key()) != string(te.K) || tokOf(e.Value()) != tokOf(te.V) || e.ExpireAt().UnixNano() != te.E {
+		if string(e.Key()) != string(te.K) || tokOf(e.Value()) != tokOf(te.V) || (walkStrictE && e.ExpireAt().UnixNano() != te.E) {
 			res[len(res)-1].V = -2 // accessor disagreement is reported as a foreign value
 		}
 		return nil
@@ -132,7 +136,7 @@ func (b syncB) Walk() []EntryObs {
 	_, err := b.c.Walk(func(e cache.Entry) error {
 		te := e.(*cache.TraitEntry)
 		res = append(res, EntryObs{Key: string(te.K), V: tokOf(te.V), E: te.E, C: te.C})
-		if string(e.Key()) != string(te.K) || tokOf(e.Value()) != tokOf(te.V) || e.ExpireAt().UnixNano() != te.E {
+		if string(e.Key()) != string(te.K) || tokOf(e.Value()) != tokOf(te.V) || (walkStrictE && e.ExpireAt().UnixNano() != te.E) {
 			res[len(res)-1].V = -2
 		}
 		return nil
@@ -175,7 +179,7 @@ func (b shardedOfB) Walk() []EntryObs {
 	_, err := b.c.Walk(func(e cache.EntryOf[int]) error {
 		te := e.(*cache.TraitEntryOf[int])
 		res = append(res, EntryObs{Key: string(te.K), V: te.V, E: te.E, C: te.C})
-		if string(e.Key()) != string(te.K) || e.Value() != te.V || e.ExpireAt().UnixNano() != te.E {
+		if string(e.Key()) != string(te.K) || e.Value() != te.V || (walkStrictE && e.ExpireAt().UnixNano() != te.E) {
 			res[len(res)-1].V = -2
 		}
 		return nil
